@@ -24,7 +24,7 @@ from .cdef import Contract, LoopSpec  # noqa: E402,F401
 
 SPEC_PRIM_NAMES = {'be', 'le', 'sl', 'cat', 'low', 'shr', 'pow2', 'tb', 'tl', 'bat', 'rpow', 'rpow2', 'bfind',
                    'band', 'bor', 'at', 'toreal', 'is_int_valued', 'decode', 'decodable', 'has_key', 'pv',
-                   'kind_of', 'raw_of', 'val_of', 'keys_of', 'append', 'cls_is', 'warned', 'i2r', 'src_T', 'src_R'}
+                   'kind_of', 'raw_of', 'val_of', 'keys_of', 'append', 'cls_is', 'warned', 'i2r', 'src_T', 'src_R', 'coerce_like', 'coercible', 'comparable'}
 
 
 class Registry:
